@@ -96,6 +96,7 @@ CASES = [
     ("reshape_unaligned", "def f(a, b):\n    return a.reshape(2, 3) * 1", (3, 2), (1,)),
     ("reshape_unaligned3", "def f(a, b):\n    return a.reshape(3, 4)", (2, 2, 3), (1,)),
     ("linalg_inv_batch", "def f(a, b):\n    m = torch.tensor([[2.0, 1.0], [1.0, 1.0]]) + torch.eye(2) * (a * a)[:, None, None]\n    return torch.matmul(torch.linalg.inv(m), b.unsqueeze(-1)).squeeze(-1)", (3,), (3, 2)),
+    ("inplace_unary", "def f(a, b):\n    c = a.clone()\n    c.abs_()\n    c.add_(1).reciprocal_()\n    d = b.clone()\n    d.view(-1).neg_()\n    d.clamp_(min=-1, max=1)\n    return c + d.sum()", (3, 2), (2, 2)),
     ("alias_flatten", "def f(a, b):\n    c = a.clone()\n    c.flatten()[2] = -4.0\n    return c", (2, 2), (1,)),
     ("linalg_inv", "def f(a, b):\n    m = torch.tensor([[2.0, 1.0], [1.0, 1.0]]) + torch.eye(2) * a[0] * a[0]\n    return torch.matmul(torch.linalg.inv(m), b)", (1,), (2, 1)),
     ("flip", "def f(a, b):\n    return torch.flip(a, [0])", (4, 2), (1,)),
